@@ -168,6 +168,12 @@ class Run:
 def real_api_differs(runA, runB, select, env, tol=1e-9):
     """Re-run both closures on the real API at the concrete input `env` and compare the selected outputs.
     select(resultA, resultB) -> (listA, listB) must work on float arrays as it does on object arrays."""
+    # module attributes written while tracing (jaxnodes / jaxedges) hold dead tracers: rebuild them outside any trace
+    try:
+        from . import zoo
+        zoo.refresh()
+    except Exception:
+        pass
     a, b = runA.concrete(env), runB.concrete(env)
     la, lb = select(a, b)
     la = np.asarray([float(x) for x in la]); lb = np.asarray([float(x) for x in lb])
